@@ -8,14 +8,14 @@ For the pair (λ, ν), `set_elastic_params` (prmcase 2) evaluates
     ns['pg'] = ns['plda']*(1 - 2 * ns['pnu']) / (2*ns['pnu'])
 
 *before* its positive-definiteness test `check_ii`, and the only tests that precede these divisions —
-"given moduli are positive" and "-1.0 < pnu < 0.5" — admit ν = 0.  So for every λ > 0 and ν = 0 the
+"given moduli are positive" and "-1.0 < pnu < 0.5" — allow ν = 0.  So for every λ > 0 and ν = 0 the
 traced path passes all preceding checks and reaches a division whose denominator is zero: Python raises
 `ZeroDivisionError`, which is neither of the two allowed outcomes (no material has λ > 0 and ν = 0, so
 the pair ought to be rejected with `ValueError`).  Reproduced on the real code by the oracle site
 `Blake:zero_division` (`Blake(lame_mod=1e9, poisson_ratio=0.0)` → ZeroDivisionError).
 
 (In exact real arithmetic with Lean's convention x/0 = 0 the model takes the `raise ValueError` branch of
-`check_ii`; that is why `mod LNu_raise` carries the hypothesis ν ≠ 0.)
+`check_ii`; that is why `modLNu_raise` carries the hypothesis ν ≠ 0.)
 -/
 import EPV.Gen.BlakeModLNu
 import EPV.Tactics
